@@ -71,9 +71,18 @@ def validate_struct_list_array_for_equal_lengths(array: pa.StructArray) -> None:
         if first_list_array is None:
             first_list_array = list_array
             continue
-        # compare offsets from the first list array with the current one
-        if not first_list_array.offsets.equals(list_array.offsets):
+        # compare offsets from the first list array with the current one,
+        # relative to their first element: arrays may be slices of different buffers
+        if not _rebased_offsets(first_list_array).equals(_rebased_offsets(list_array)):
             raise ValueError("Offsets of all ListArrays must be the same")
+
+
+def _rebased_offsets(list_array: pa.ListArray) -> pa.Array:
+    """List offsets relative to the first one, so slices of different buffers compare equal"""
+    offsets = list_array.offsets
+    if offsets[0].as_py() == 0:
+        return offsets
+    return pa.compute.subtract(offsets, offsets[0])
 
 
 def transpose_struct_list_type(t: pa.StructType) -> pa.ListType:
